@@ -32,8 +32,10 @@ for all `T`.
 All twelve partitioners are covered: Ckk (C13), Greedy and KarmarkarKarp (C12),
 Grid 2-D/3-D (C10), Rcb and Rib (C03), HilbertCurve 2-D/3-D and ZCurve (C09),
 MultiJagged (C11), Random (own model).  Totality is partial in exactly two
-places, as with the owners: Rcb/Rib (termination of the `f32` cut search is
-C03's stated assumption: `Rcb.total_statement` / `Rcb.total_partial`) and
+places, as with the owners: Rcb/Rib (proved for every ranked coordinate type,
+`Rcb.total_ranked` / `Rib.total_ranked`, `Int` instance proved in `Rcb.total_int`;
+that `f32` meets the rank laws is IEEE-754, trusted: `Rcb.total_statement` /
+`Rcb.total_partial` stay) and
 HilbertCurve (the settle loop of `weighted_quantiles` has no termination proof:
 `Hilbert.total_statement`, shown equivalent to C09's
 `quantiles_terminates_statement`, and `Hilbert.total_partial`).
@@ -263,6 +265,41 @@ theorem total_partial {S : α → Prop} (laws : OrderLawsOn S) (wt : Int → Int
     · cases hr
     · split at hr <;> cases hr
 
+/-- **Totality on ranked coordinates** (C03's `rcb_total_ranked`): for every coordinate type
+with a finite order-embedded rank and the between-ness law of the cut target
+(`RankedCoord α`; `Int` proved, `f32` by IEEE-754, trusted), with matching lengths and fuel
+at least the rank width of the point set on every axis plus two, `rcb` returns ids: no
+index out of range, no cut search that outlives its fuel. -/
+theorem total_ranked (R : RankedCoord α) (laws : OrderLawsOn R.S) (wt : Int → Int → Bool)
+    (cfg : Cfg) (iter : Nat) (pts : List (List α)) (ws : List Int) (hdim : 0 < cfg.dim)
+    (hS : ∀ p ∈ pts, ∀ c, R.S (p.getD c Coord.zero))
+    (hfuel : ∀ p ∈ pts, ∀ q ∈ pts, ∀ c, c < cfg.dim →
+      (R.rank (q.getD c Coord.zero) - R.rank (p.getD c Coord.zero)).toNat + 2 ≤ cfg.fuel)
+    (hlen : ws.length = pts.length) :
+    ∃ ids, run wt cfg iter pts ws pts.length = .ok ids := by
+  rcases rcb_total_ranked R laws wt cfg iter pts ws pts.length hdim hS hfuel with h | h
+  · exfalso
+    unfold run runBB at h
+    simp only at h
+    rw [if_neg (by omega), if_neg (by omega)] at h
+    split at h
+    · cases h
+    · split at h <;> cases h
+  · exact h
+
+/-- The exact-integer instance: fuel `(largest − smallest coordinate on any axis) + 2`. -/
+theorem total_int (wt : Int → Int → Bool) (cfg : Cfg) (iter : Nat) (pts : List (List Int))
+    (ws : List Int) (hdim : 0 < cfg.dim)
+    (hfuel : ∀ p ∈ pts, ∀ q ∈ pts, ∀ c, c < cfg.dim →
+      (q.getD c 0 - p.getD c 0).toNat + 2 ≤ cfg.fuel)
+    (hlen : ws.length = pts.length) :
+    ∃ ids, run wt cfg iter pts ws pts.length = .ok ids :=
+  total_ranked intRanked intOrderLaws wt cfg iter pts ws hdim (fun _ _ _ => trivial) hfuel hlen
+
+/-- Non-vacuity of the fuel hypothesis (the second input below spans 12 units in x, 1 in y). -/
+example : ∀ p ∈ [[0, 0], [4, 1], [8, 0], [12, 1]], ∀ q ∈ [[0, 0], [4, 1], [8, 0], [12, 1]],
+    ∀ c, c < 2 → ((q : List Int).getD c 0 - (p : List Int).getD c 0).toNat + 2 ≤ 100 := by decide
+
 /-- Non-vacuity (`α = Int`, `intOrderLaws`): more parts than points (3 coincident points,
 8 parts), and one heavy element among zero weights. -/
 example : run (α := Int) (fun _ _ => false) ⟨2, 100⟩ 3
@@ -290,6 +327,32 @@ theorem ids_lt {β : Type} {S : α → Prop} (laws : OrderLawsOn S) (rotate : β
     (h : runRib rotate wt cfg iter pts ws plen = .ok ids) : ∀ i ∈ ids, i < 2 ^ iter := by
   obtain ⟨_, _, _, _, _, _, hlt⟩ := rib_is_bisection laws rotate wt cfg iter pts ws plen ids hS h
   exact hlt
+
+/-- Totality of Rib on ranked coordinates, for EVERY frame `rotate` whose image meets the
+hypotheses (`rib` is `rcb` on the rotated points). -/
+theorem total_ranked {β : Type} (R : RankedCoord α) (laws : OrderLawsOn R.S) (rotate : β → List α)
+    (wt : Int → Int → Bool) (cfg : Cfg) (iter : Nat) (pts : List β) (ws : List Int) (hdim : 0 < cfg.dim)
+    (hS : ∀ p ∈ pts, ∀ c, R.S ((rotate p).getD c Coord.zero))
+    (hfuel : ∀ p ∈ pts, ∀ q ∈ pts, ∀ c, c < cfg.dim →
+      (R.rank ((rotate q).getD c Coord.zero) - R.rank ((rotate p).getD c Coord.zero)).toNat + 2 ≤ cfg.fuel)
+    (hlen : ws.length = pts.length) :
+    ∃ ids, runRib rotate wt cfg iter pts ws pts.length = .ok ids := by
+  have := Rcb.total_ranked R laws wt cfg iter (pts.map rotate) ws hdim
+    (by
+      intro p hp c
+      obtain ⟨q, hq, rfl⟩ := List.mem_map.1 hp
+      exact hS q hq c)
+    (by
+      intro p hp q hq c hc
+      obtain ⟨p', hp', rfl⟩ := List.mem_map.1 hp
+      obtain ⟨q', hq', rfl⟩ := List.mem_map.1 hq
+      exact hfuel p' hp' q' hq' c hc)
+    (by simpa using hlen)
+  simpa [runRib] using this
+
+/-- Non-vacuity: Rib on integer points with the frame "swap the axes". -/
+example : runRib (α := Int) (fun p : Int × Int => [p.2, p.1]) (fun _ _ => false) ⟨2, 100⟩ 1
+    [(0, 0), (1, 4), (0, 8), (1, 12)] [1, 1, 1, 1] 4 = .ok [0, 1, 1, 1] := by decide +kernel
 
 end Rib
 
@@ -539,8 +602,11 @@ end Coupe.C01
 #print axioms Coupe.C01.Rcb.length_ok
 #print axioms Coupe.C01.Rcb.ids_lt
 #print axioms Coupe.C01.Rcb.total_partial
+#print axioms Coupe.C01.Rcb.total_ranked
+#print axioms Coupe.C01.Rcb.total_int
 #print axioms Coupe.C01.Rib.length_ok
 #print axioms Coupe.C01.Rib.ids_lt
+#print axioms Coupe.C01.Rib.total_ranked
 #print axioms Coupe.C01.Hilbert.run_eq
 #print axioms Coupe.C01.Hilbert.length_ok
 #print axioms Coupe.C01.Hilbert.ids_lt
